@@ -711,3 +711,43 @@ var _ = math.MaxInt64
 
 func evalDump(e *eval.Expr) string      { return eval.Dump(e) }
 func evalDumpTable(e *eval.Expr) string { return eval.DumpTable(e, true) }
+
+// foreignActivity makes the engine do unrelated work with a quite different configuration:
+// compilations (valid and failing, prefix and infix, with other costs, another stateless list,
+// other operators behind the same names, large list literals) and evaluations. Checks call it
+// between two steps whose results must not depend on anything but their own inputs - state
+// kept in pools, global memos or caches keyed by text or address then shows as a difference.
+func foreignActivity(salt int) {
+	cc := eval.NewConfig(eval.EnableUndefinedVariable)
+	for i, n := range []string{"variable", "operator", "and", "or", "=", ">", "+", "in", "overlap", "c_id", "c_sum", "b0", "b1", "i0", "i1", "s0", "p0", "q0", "x", "a"} {
+		cc.CostsMap[n] = float64((salt+i*37)%400 - 100)
+	}
+	for _, n := range customNames {
+		n := n
+		cc.OperatorMap[n] = func(*eval.Ctx, []eval.Value) (eval.Value, error) { return int64(len(n) + salt%7), nil }
+	}
+	cc.StatelessOperators = []string{"c_sum", "c_id", "c_cnt", "c_not", "andn"}
+	cc.ConstantMap["Kb"], cc.ConstantMap["Ki"], cc.ConstantMap["Ks"] = false, int64(-salt), "foreign"
+	big := "("
+	for i := 0; i < 130; i++ {
+		big += fmt.Sprintf(" %d", (i*131+salt)%997)
+	}
+	big += ")"
+	srcs := []string{
+		"(and (or b0 (= i0 " + fmt.Sprint(salt%9) + ")) (c_id b1) (> (+ i0 i1 (c_sum 1 2)) 2))",
+		"(overlap " + big + " li0)", "(in i0 " + big + ")", `(in s0 ("a b" "c" "a" "b c" "x"))`,
+		";;;; optimize: false\n(or (and b0 b1) (if b0 b1 b0))", "(and b0", "(+ 1 (no_such 2))", "(= (c_cnt) (c_cnt))",
+	}
+	for _, s := range srcs {
+		if e, _ := SafeCompile(cc, s); e != nil {
+			Safe(func() (eval.Value, error) {
+				return e.Eval(&eval.Ctx{VariableFetcher: mapFetcher{"b0": salt%2 == 0, "b1": true, "i0": int64(salt), "i1": int64(3), "li0": []int64{5, 1}, "s0": "a b"}})
+			})
+		}
+	}
+	eval.EnableInfixNotation(cc)
+	for _, s := range []string{"b0 && (i0 + 1 > 2 || c_id(b1))", "1 + no_such_function(2)", "a b", "!b0 ||", "if(b0, [1 -2 3], [])"} {
+		SafeCompile(cc, s)
+	}
+}
+
